@@ -220,8 +220,12 @@ class Host(_Endpoint):
             finally:
                 w._creating = None
             self.zc = self.azc.zeroconf
-            self.zc.record_manager.listeners = OrderedSet(reverse=w.listener_reverse)
-            self.zc._notify_futures = OrderedSet()
+            # the two id()-ordered sets get a seed-chosen, replayable order; a container of another kind (a change of
+            # the library under test) is already ordered and is left alone
+            if type(self.zc.record_manager.listeners) is set:
+                self.zc.record_manager.listeners = OrderedSet(reverse=w.listener_reverse)
+            if type(self.zc._notify_futures) is set:
+                self.zc._notify_futures = OrderedSet()
             self.alive = True
 
         self.new_context().run(mk)
